@@ -552,6 +552,97 @@ theorem c16_import_export_ob (σ base : State) (h : obInv σ = true) (hu : hasDu
   · show s7.bets = σ.bets
     rw [i2, hbets6]
 
+-- =============================================================================================
+-- the four core modules together: a restarted chain is the chain that was never restarted
+
+theorem State.ext' (a b : State) (h1 : a.bal = b.bal) (h2 : a.markets = b.markets) (h3 : a.mqueue = b.mqueue)
+    (h4 : a.books = b.books) (h5 : a.obqueue = b.obqueue) (h6 : a.bets = b.bets) (h7 : a.pending = b.pending)
+    (h8 : a.settled = b.settled) (h9 : a.betCount = b.betCount) (h10 : a.deposits = b.deposits)
+    (h11 : a.withdrawals = b.withdrawals) (h12 : a.grants = b.grants) (h13 : a.params = b.params)
+    (h14 : a.height = b.height) (h15 : a.time = b.time) : a = b := by
+  cases a; cases b; simp_all
+
+theorem Params.ext' (a b : Params) (h1 : a.betBatch = b.betBatch) (h2 : a.betMin = b.betMin) (h3 : a.betFee = b.betFee)
+    (h4 : a.houseMin = b.houseMin) (h5 : a.houseFee = b.houseFee) (h6 : a.houseMaxW = b.houseMaxW)
+    (h7 : a.obMaxPart = b.obMaxPart) (h8 : a.obBatch = b.obBatch) (h9 : a.obThreshold = b.obThreshold) : a = b := by
+  cases a; cases b; simp_all
+
+/-- C16, core modules (bet, market, orderbook, house in the order of app/modules.go): importing the export of a
+    reachable state into a fresh chain (same bank balances, authz grants and block clock) gives the same state —
+    markets, books with all nested stores, bets with both indexes and the counter, deposits, withdrawals, parameters. -/
+theorem c16_core_restart (σ : State) (hm : marketInv σ = true) (hh : houseInv σ = true) (hb : betInv σ = true)
+    (ho : obInv σ = true) : importCore (exportCore σ) (freshCore σ) = some σ := by
+  obtain ⟨b1, b2, b3, b4, b5, b6, b7⟩ := c16_import_export_bet σ hb
+  have sb := importBet_same (exportBet σ) (freshCore σ)
+  obtain ⟨_, hdup, _⟩ := betInv_unpack σ hb
+  -- the state when the order-book genesis is reached
+  have hbooks : (importMarket (exportMarket σ) (importBet (exportBet σ) (freshCore σ))).books = [] := sb.2.2.2.1
+  have hbets : (importMarket (exportMarket σ) (importBet (exportBet σ) (freshCore σ))).bets = σ.bets := b1
+  obtain ⟨σ3, e3, o1, o2, o3, o4, o5, o6⟩ := c16_import_export_ob σ _ ho hdup hbooks hbets
+  have so := importOb_sameOb _ _ _ e3
+  obtain ⟨m1, _⟩ := c16_import_export_market σ hm
+  obtain ⟨d1, d2, _, _, _⟩ := c16_import_export_house σ hh
+  unfold importCore exportCore
+  simp only
+  rw [e3]
+  simp only [Option.map_some, Option.some.injEq]
+  obtain ⟨s1, s2, s3, s4, s5, s6, s7, s8, s9, s10, s11, s12, s13, s14, s15, s16, s17, s18⟩ := so
+  obtain ⟨t1, t2, t3, t4, t5, t6, t7, t8, t9, t10⟩ := sb
+  apply State.ext'
+  · show σ3.bal = σ.bal
+    rw [s1]; exact t1
+  · show σ3.markets = σ.markets
+    rw [s2]
+    show setAll Market.key σ.markets (importBet (exportBet σ) (freshCore σ)).markets = σ.markets
+    rw [t2]; exact m1
+  · show σ3.mqueue = σ.mqueue
+    rw [s3]; rfl
+  · exact o1
+  · exact o2
+  · show σ3.bets = σ.bets
+    exact o3
+  · show σ3.pending = σ.pending
+    rw [s5]; exact b2
+  · show σ3.settled = σ.settled
+    rw [s6]; exact b3
+  · show σ3.betCount = σ.betCount
+    rw [s7]; exact b4
+  · show setAll Deposit.key σ.deposits σ3.deposits = σ.deposits
+    rw [s8]
+    show setAll Deposit.key σ.deposits (importBet (exportBet σ) (freshCore σ)).deposits = σ.deposits
+    rw [t6]; exact d1
+  · show setAll Withdrawal.key σ.withdrawals σ3.withdrawals = σ.withdrawals
+    rw [s9]
+    show setAll Withdrawal.key σ.withdrawals (importBet (exportBet σ) (freshCore σ)).withdrawals = σ.withdrawals
+    rw [t7]; exact d2
+  · show σ3.grants = σ.grants
+    rw [s10]; exact t8
+  · apply Params.ext'
+    · show σ3.params.betBatch = _
+      rw [s13]; exact b5
+    · show σ3.params.betMin = _
+      rw [s14]; exact b6
+    · show σ3.params.betFee = _
+      rw [s15]; exact b7
+    · rfl
+    · rfl
+    · rfl
+    · exact o4
+    · exact o5
+    · exact o6
+  · show σ3.height = σ.height
+    rw [s11]; exact t9
+  · show σ3.time = σ.time
+    rw [s12]; exact t10
+
+/-- C16 `continue_equal`, core modules: continuing with the same transactions and blocks on the restarted chain yields
+    the same state (balances and every record) as on the chain that was never restarted. -/
+theorem c16_core_continue_equal (σ : State) (hm : marketInv σ = true) (hh : houseInv σ = true) (hb : betInv σ = true)
+    (ho : obInv σ = true) (ops : List Op) :
+    (importCore (exportCore σ) (freshCore σ)).map (fun σ' => run σ' ops) = some (run σ ops) := by
+  rw [c16_core_restart σ hm hh hb ho]
+  rfl
+
 def cexTk : Tk := { ok := true, kycIgnore := true, kycApproved := false, kycId := 0 }
 
 def cexBase : State :=
